@@ -79,7 +79,7 @@ type ContractFile struct {
 }
 
 var keywordRe = regexp.MustCompile(`^(func|spec|smt|property|requires|ensures|loop|modifies|option|lemma|end|ghost|param)\b`)
-var labelRe = regexp.MustCompile(`^\[([A-Za-z0-9_.\-]+)\]\s*`)
+var labelRe = regexp.MustCompile(`^\[([A-Za-z0-9_.\-!]+)\]\s*`)
 
 func parseContractFile(path, pkgPath string) (*ContractFile, error) {
 	f, err := os.Open(path)
